@@ -353,7 +353,15 @@ func c12Agree(env *Env, c *Case) (vs []Violation) {
 			env.Probe("agree-refused-file")
 		}
 	}
-	if rw.Exit != 0 && len(failed) == 0 {
+	anyNamed := false
+	for _, f := range sorted {
+		if namesPath(c, string(rw.Stderr), f.Path) {
+			// reported, and rewritten all the same: the other modes and the
+			// library are held to what in-place mode did with it
+			anyNamed = true
+		}
+	}
+	if rw.Exit != 0 && len(failed) == 0 && !anyNamed {
 		// the run failed as a whole (patch did not load, ...): nothing to compare
 		env.Probe("inplace-run-failed")
 		return nil
